@@ -1,14 +1,47 @@
 /-
 C14 — by default a trailing slash on the request path changes nothing.
 
+"With the default path strategy, a request for a path p that does not end in `/` and a request for
+p followed by `/` have the same outcome in every respect the framework decides: same status, same
+selected route, same path parameter values, same Allow header."
+
+(1) What `route` decides (status, selected route, path parameters, the Allow set of a 405).
 CurlyRouter: both `SelectRoute` and `ExtractParameters` see the path only through
-`tokenizePath`, which ignores one trailing slash.  RouterJSR311: the extra `/` is absorbed by the
-final group `(/.*)?`, which the route stage accepts iff it is empty or `/` — provided no regex
-variable of the table matches the empty segment (finding F19 otherwise) and no tail wildcard is
-involved (outside the property for this router).
+`tokenizePath`, which ignores one trailing slash (`C14_curly`, all templates).  RouterJSR311: the
+extra `/` is absorbed by the final group `(/.*)?`, which the route stage accepts iff it is empty or
+`/` — provided no regex variable of the table matches the empty segment (finding F19 otherwise) and
+no tail wildcard is involved (outside the property for this router): `C14_jsr_partial(_B)`.
+
+(2) The COMPUTED Allow header.  `Container.computeAllowedMethods` (container.go:426) produces the
+Allow / Access-Control-Allow-Methods values of `Container.OPTIONSFilter` and the method list of a
+CORS preflight when no methods are configured.  It never consults the router: it walks ALL services
+with the compiled (RouterJSR311-style) expressions — root expression against the URL, its final
+group against every route's own expression, the route's method is listed when the route's final
+group is empty or `/`.  What is proved:
+  * `C14_options_allow_partial(_B)`   `computeAllowedMethods (p/) = computeAllowedMethods p` for every
+                                      table (either router) that is `Jsr.slashSafe`: no compiled root
+                                      or route template contains a tail wildcard or a regex variable
+                                      that matches the empty segment — the SAME hypothesis as
+                                      `C14_jsr_partial`, needed of root and route templates because
+                                      the function matches with both
+  * `C14_options_filter_partial(_B)`  hence the whole answer of the OPTIONS filter (headers added,
+                                      passes on or not) is the same for p and p/
+  * `C14_cors_partial`                and so is the whole answer of the CORS filter (preflight
+                                      included)
+  * `C14_options_F19_witness`,        neither half of the hypothesis can be dropped, for root or for
+    `C14_options_wildcard_witness`    route templates: with `/a` + `/{v:[a-z]*}` (or `/{t:*}`) the
+                                      computed list is empty for `/a` and `GET` for `/a/`; the same
+                                      with the variable in the root and p = "" or p = `/a`
+Full statement (FALSE on the current code by those witnesses):
+  theorem C14_options_allow (hp : p = [] ∨ p.getLast? ≠ some '/') :
+      Cors.computeAllowedMethods E tbl.services (p ++ ['/']) = Cors.computeAllowedMethods E tbl.services p
+NOTE: since `computeAllowedMethods` ignores the router, the tail-wildcard witness also holds of a
+CurlyRouter container, where (1) holds on all templates: there `GET /a` and `GET /a/` are both 404
+but the OPTIONS filter lists nothing for `/a` and `GET` for `/a/`.
 -/
 import Restful.Lemmas.Tokenize
 import Restful.Lemmas.JsrSlash
+import Restful.Lemmas.AllowSlash
 import Restful.Spec.Slash
 import Restful.Lemmas.StateShape
 namespace Restful
@@ -98,6 +131,103 @@ example : Jsr.slashSafe ⟨fun _ _ => true, fun _ s => !s.isEmpty⟩
     subst this
     simp only [List.mem_cons, List.mem_singleton, List.not_mem_nil, or_false] at ht
     rcases ht with rfl | rfl <;> simp [Jsr.tokSlashSafe]
+
+/-! ### the computed Allow header (`Container.computeAllowedMethods`) -/
+
+/-
+Full statement (false on the current code, see `C14_options_F19_witness`, `C14_options_wildcard_witness`):
+  theorem C14_options_allow (hp : p = [] ∨ p.getLast? ≠ some '/') :
+      Cors.computeAllowedMethods E tbl.services (p ++ ['/']) = Cors.computeAllowedMethods E tbl.services p
+-/
+
+/-- **C14, computed Allow header**: on every table — whatever its router, which
+    `computeAllowedMethods` never consults — whose compiled root and route templates contain no tail
+    wildcard and no regex variable that matches the empty segment, the method list computed for
+    `p/` is the one computed for `p` (same methods, same order, same multiplicities; `none` = a
+    template that does not compile, on both sides) -/
+theorem C14_options_allow_partial (tbl : Config) (hs : Jsr.slashSafe E tbl) (p : Str)
+    (hp : p = [] ∨ p.getLast? ≠ some '/') :
+    Cors.computeAllowedMethods E tbl.services (p ++ ['/']) = Cors.computeAllowedMethods E tbl.services p :=
+  Cors.computeAllowedMethods_trailing_slash E tbl hs p hp
+
+/-- `C14_options_allow_partial` with the hypothesis in the form the check evaluates on every generated table -/
+theorem C14_options_allow_partial_B (tbl : Config) (hs : Spec.jsrSlashSafeB E tbl = true) (p : Str)
+    (hp : p = [] ∨ p.getLast? ≠ some '/') :
+    Cors.computeAllowedMethods E tbl.services (p ++ ['/']) = Cors.computeAllowedMethods E tbl.services p :=
+  C14_options_allow_partial E tbl (slashSafe_of_B E tbl hs) p hp
+
+/-- **C14, OPTIONS filter**: under the same hypothesis the whole answer of `Container.OPTIONSFilter`
+    (Allow, Access-Control-Allow-Origin, Access-Control-Allow-Headers, Access-Control-Allow-Methods,
+    passes on or not) is the same for `p/` and `p`, for every method and every other header -/
+theorem C14_options_filter_partial (tbl : Config) (hs : Jsr.slashSafe E tbl) (rq : Options.OptReq) (p : Str)
+    (hp : p = [] ∨ p.getLast? ≠ some '/') (hreq : rq.path = p) :
+    Options.optionsOut E tbl { rq with path := p ++ ['/'] } = Options.optionsOut E tbl { rq with path := p } := by
+  subst hreq
+  exact Options.optionsOut_trailing_slash E tbl hs rq rq.path hp rfl
+
+theorem C14_options_filter_partial_B (tbl : Config) (hs : Spec.jsrSlashSafeB E tbl = true) (rq : Options.OptReq) (p : Str)
+    (hp : p = [] ∨ p.getLast? ≠ some '/') (hreq : rq.path = p) :
+    Options.optionsOut E tbl { rq with path := p ++ ['/'] } = Options.optionsOut E tbl { rq with path := p } :=
+  C14_options_filter_partial E tbl (slashSafe_of_B E tbl hs) rq p hp hreq
+
+/-- **C14, CORS filter**: the other consumer of `computeAllowedMethods` (preflight when no methods
+    are configured): the whole answer of the filter is the same for `p/` and `p` -/
+theorem C14_cors_partial (lower : Str → Str) (cc : Cors.CorsCfg) (tbl : Config) (hs : Jsr.slashSafe E tbl)
+    (rq : Cors.CorsReq) (p : Str) (hp : p = [] ∨ p.getLast? ≠ some '/') (hreq : rq.path = p) :
+    Cors.corsOut lower E cc tbl { rq with path := p ++ ['/'] } = Cors.corsOut lower E cc tbl { rq with path := p } := by
+  subst hreq
+  exact Cors.corsOut_trailing_slash lower E cc tbl hs rq rq.path hp rfl
+
+/-- the regex half of the hypothesis cannot be dropped (F19 seen through the computed Allow header):
+    a regex variable that matches the empty string — in a route template (`/a` + `/{v:[a-z]*}`:
+    nothing listed for `/a`, GET for `/a/`) or in a root template (`/a/{v:[a-z]*}` + `/`, same
+    paths; `/{v:[a-z]*}` + `/` for p = "") -/
+theorem C14_options_F19_witness :
+    let E : ReEnv := ⟨fun _ _ => true, fun _ s => s.isEmpty⟩
+    let get (rel : String) : RouteDecl :=
+      { id := 1, method := "GET".toList, relPath := rel.toList, consumes := [], produces := [], conds := [], noct := [] }
+    (Cors.computeAllowedMethods E [{ id := 0, root := "/a".toList, routes := [get "/{v:[a-z]*}"] }] "/a".toList = some [] ∧
+     Cors.computeAllowedMethods E [{ id := 0, root := "/a".toList, routes := [get "/{v:[a-z]*}"] }] "/a/".toList = some ["GET".toList]) ∧
+    (Cors.computeAllowedMethods E [{ id := 0, root := "/a/{v:[a-z]*}".toList, routes := [get "/"] }] "/a".toList = some [] ∧
+     Cors.computeAllowedMethods E [{ id := 0, root := "/a/{v:[a-z]*}".toList, routes := [get "/"] }] "/a/".toList = some ["GET".toList]) ∧
+    (Cors.computeAllowedMethods E [{ id := 0, root := "/{v:[a-z]*}".toList, routes := [get "/"] }] [] = some [] ∧
+     Cors.computeAllowedMethods E [{ id := 0, root := "/{v:[a-z]*}".toList, routes := [get "/"] }] "/".toList = some ["GET".toList]) := by
+  decide
+
+/-- the wildcard half of the hypothesis cannot be dropped either, and — `computeAllowedMethods`
+    ignoring the router — not for a CurlyRouter container either: with `/a` + `/{t:*}` nothing is
+    listed for `/a` and GET for `/a/` (under CurlyRouter both `GET /a` and `GET /a/` are 404:
+    `C14_curly` holds, the computed Allow header differs); likewise with the wildcard in the root -/
+theorem C14_options_wildcard_witness :
+    let E : ReEnv := ⟨fun _ _ => true, fun _ _ => false⟩
+    let get (rel : String) : RouteDecl :=
+      { id := 1, method := "GET".toList, relPath := rel.toList, consumes := [], produces := [], conds := [], noct := [] }
+    let cfg : Config := { router := .curly, services := [{ id := 0, root := "/a".toList, routes := [get "/{t:*}"] }] }
+    (Cors.computeAllowedMethods E cfg.services "/a".toList = some [] ∧
+     Cors.computeAllowedMethods E cfg.services "/a/".toList = some ["GET".toList] ∧
+     route E cfg { method := "GET".toList, path := "/a".toList } = .error 404 none ∧
+     route E cfg { method := "GET".toList, path := "/a/".toList } = .error 404 none) ∧
+    (Cors.computeAllowedMethods E [{ id := 0, root := "/a/{t:*}".toList, routes := [get "/"] }] "/a".toList = some [] ∧
+     Cors.computeAllowedMethods E [{ id := 0, root := "/a/{t:*}".toList, routes := [get "/"] }] "/a/".toList = some ["GET".toList]) := by
+  decide
+
+/-- non-vacuity of `C14_options_allow_partial` / `C14_options_filter_partial`: a literal root with
+    two static routes one segment below it meets the hypothesis (in both forms), and the computed
+    list is GET, POST for `/shop/candies` and for `/shop/candies/` -/
+example :
+    let E : ReEnv := ⟨fun _ _ => true, fun _ s => !s.isEmpty⟩
+    let tbl : Config := { router := .curly, services := [{ id := 0, root := "/shop".toList, routes :=
+      [{ id := 1, method := "GET".toList, relPath := "/candies".toList, consumes := [], produces := [], conds := [], noct := [] },
+       { id := 2, method := "POST".toList, relPath := "/candies".toList, consumes := [], produces := [], conds := [], noct := [] }] }] }
+    Spec.jsrSlashSafeB E tbl = true ∧ Jsr.slashSafe E tbl ∧
+    ("/shop/candies".toList = [] ∨ "/shop/candies".toList.getLast? ≠ some '/') ∧
+    Cors.computeAllowedMethods E tbl.services "/shop/candies".toList = some ["GET".toList, "POST".toList] ∧
+    Cors.computeAllowedMethods E tbl.services ("/shop/candies".toList ++ ['/']) = some ["GET".toList, "POST".toList] ∧
+    Options.optionsOut E tbl { method := "OPTIONS".toList, path := "/shop/candies".toList ++ ['/'] } =
+      Options.optionsOut E tbl { method := "OPTIONS".toList, path := "/shop/candies".toList } := by
+  intro E tbl
+  have hB : Spec.jsrSlashSafeB E tbl = true := by decide
+  refine ⟨hB, slashSafe_of_B E tbl hB, by decide, by decide, by decide, by decide⟩
 
 /-! The frame condition (Lemmas/StateShape.lean): the code has exactly the state this property's model
     accounts for — no further package-level variable, struct type or field; constants as modelled. -/
